@@ -2316,7 +2316,14 @@ evhttp_parse_headers_(struct evhttp_request *req, struct evbuffer* buffer)
 		if (svalue == NULL)
 			goto error;
 
-		svalue += strspn(svalue, " ");
+		/* RFC 9112 5.1: no whitespace is allowed between the field
+		 * name and the colon; a server MUST reject such a request. */
+		if (req->kind == EVHTTP_REQUEST && *skey != '\0' &&
+		    (skey[strlen(skey) - 1] == ' ' || skey[strlen(skey) - 1] == '\t'))
+			goto error;
+
+		/* OWS = *( SP / HTAB ) on both sides of the value */
+		svalue += strspn(svalue, " \t");
 		evutil_rtrim_lws_(svalue);
 
 		if (evhttp_add_header(headers, skey, svalue) == -1)
